@@ -136,6 +136,10 @@ def flatten_point(ob, point):
             vals.append(float(Fr(v)))
         elif name in ("V", "t0loc", "Tloc"):
             vals += [float(Fr(a)) for a in v]
+        elif name == "Xi":
+            vals += [float(Fr(a)) for k in v for col in k for a in col]
+        elif name in ("Xc", "Zc"):
+            vals += [float(Fr(a)) for k in v for i in k for col in i for a in col]
         else:
             # list of columns
             vals += [float(Fr(a)) for col in v[:shape[1]] for a in col]
